@@ -210,8 +210,8 @@ def install(e):
         host_l = lower(z(c.ghost["$host0"]))
         chosen = c.cell(fr.locals["cookies"]).data if isinstance(fr.locals.get("cookies"), Ref) else None
         if not isinstance(chosen, list):
-            c.prove("get.selection", z3.BoolVal(False), c.last_call_node)
-            return
+            from pyvc.ctx import Undecided
+            raise Undecided("get() no longer collects the selected entries in a local list `cookies` (the selection assertion is stated over it)")
         ents = jd.attrs["entries"]
         # on this path the selected list is a concrete sub-list of the entries; every entry is in it iff it covers the host
         goal, pos = [], 0
